@@ -36,7 +36,7 @@ ASSUMPTIONS = ["observer instances never outlive their own time-out, victims are
                "global endpoints (metrics) are excluded from the comparison",
                "the oracle is self-relative: a defect that is identical in the interleaved and the solo run does not surface here"]
 FAULT_KINDS = ["request_interleaving", "victim_expiry", "victim_stop", "preemption"]
-PROBES = ["same_settings_on_two_instances", "victim_swept_by_observer_request", "victim_stopped", "settings_differ_between_instances", "shared_base_model",
+PROBES = ["server_level_run_traffic", "same_settings_on_two_instances", "victim_swept_by_observer_request", "victim_stopped", "settings_differ_between_instances", "shared_base_model",
           "adapter_files_compared"]
 EXHAUSTIVE = {"quick": False, "thorough": False}
 
@@ -120,6 +120,11 @@ def generate(spec):
                             "settings": {}})
             else:
                 ops.append({"t_us": t, "inst": j, "op": "stream"})
+    # traffic of a party that owns no instance: /run with settings on the server-level bptk
+    for _ in range(rng.choice([0, 0, 1, 2, 3])):
+        scen = rng.choice(["base", "alt"])
+        ops.append({"t_us": rng.randrange(0, 12 * 10**6), "inst": -1, "op": "server_run", "scenario": scen,
+                    "settings": _settings(rng, template, rng.randrange(4), scen), "equations": eqs[:2]})
     ops.sort(key=lambda o: (o["t_us"], o["inst"]))
     # unique time stamps (two requests cannot be served at the same instant by a sequential server)
     last = -1
@@ -146,6 +151,8 @@ def _norm(text, idmap):
 def _do(w, ids, o, tag=None):
     j = o["inst"]
     op = o["op"]
+    if op == "server_run":
+        return w.post("/run", {"scenario_managers": ["smA"], "scenarios": [o["scenario"]], "equations": o["equations"], "settings": o["settings"]})
     if op == "create":
         r = w.post("/start-instance", {"timeout": o["timeout"]})
         if r.status == 200 and isinstance(r.body, dict):
@@ -281,6 +288,8 @@ def _fate(case):
     last = {}
     for n, o in enumerate(case["ops"]):
         j = o["inst"]
+        if j < 0:
+            continue
         T = timeout_us(case["instances"][j]["timeout"])
         if j in last and j not in fate and o["t_us"] - last[j] >= T:
             fate[j] = n
@@ -301,7 +310,8 @@ def execute(case):
         n = 0
         while n + 1 < len(ops):
             a, b = ops[n], ops[n + 1]
-            if a["inst"] != b["inst"] and a["op"] not in ("create", "stop_instance") and b["op"] not in ("create", "stop_instance"):
+            if a["inst"] != b["inst"] and a["op"] not in ("create", "stop_instance") and b["op"] not in ("create", "stop_instance") \
+                    and (a["inst"] >= 0 or b["inst"] >= 0):
                 pairs.add(n)
                 n += 2
             else:
@@ -315,6 +325,8 @@ def execute(case):
     fate = _fate(case)
     k = len(case["instances"])
     seq = [o["inst"] for o in case["ops"]]
+    if any(o["op"] == "server_run" for o in case["ops"]):
+        res.probe("server_level_run_traffic")
     interleaved = any(seq[a] != seq[a + 1] for a in range(len(seq) - 1))
     compared = 0
     if case["config"].get("shared_base"):
@@ -399,7 +411,7 @@ def shrink(case):
         for o in c["ops"]:
             if o["op"] == "create":
                 seen.add(o["inst"])
-            elif o["inst"] not in seen:
+            elif o["inst"] >= 0 and o["inst"] not in seen:
                 ok = False
                 break
         if ok:
